@@ -12,7 +12,8 @@ use rand_chacha::ChaCha20Rng;
 use std::panic::{catch_unwind, AssertUnwindSafe};
 
 #[derive(Clone, Debug)]
-pub enum Pv { All, One(usize), OneX(usize, TxOut) }
+/// AllN(n): `Prevouts::All` of the first n entries of spent ++ spent, i.e. a prevout list of the WRONG length (rejected with PrevoutsSize)
+pub enum Pv { All, One(usize), OneX(usize, TxOut), AllN(usize) }
 #[derive(Clone, Debug)]
 pub enum Op {
     Legacy(usize, u32, Vec<u8>),
@@ -45,7 +46,7 @@ pub fn show_err(e: &Error) -> String {
 fn hx(b: &[u8]) -> String { if b.is_empty() { "-".into() } else { hex(b) } }
 
 pub fn show_pv(p: &Pv) -> String {
-    match p { Pv::All => "all:-".into(), Pv::One(j) => format!("one:{}", j), Pv::OneX(j, o) => format!("onex:{}={}", j, hex(&serialize(o))) }
+    match p { Pv::All => "all:-".into(), Pv::AllN(n) => format!("all:{}", n), Pv::One(j) => format!("one:{}", j), Pv::OneX(j, o) => format!("onex:{}={}", j, hex(&serialize(o))) }
 }
 pub fn show_op(o: &Op) -> String {
     match o {
@@ -63,7 +64,7 @@ pub fn show_op(o: &Op) -> String {
 }
 pub fn parse_pv(k: &str, a: &str, spent: &[TxOut]) -> Option<Pv> {
     match k {
-        "all" => Some(Pv::All),
+        "all" => if a == "-" { Some(Pv::All) } else { let n: usize = a.parse().ok()?; if n <= 2 * spent.len() { Some(Pv::AllN(n)) } else { None } },
         "one" => { let j: usize = a.parse().ok()?; if j < spent.len() { Some(Pv::One(j)) } else { None } }
         "onex" => { let (j, h) = a.split_once('=')?; Some(Pv::OneX(j.parse().ok()?, deserialize(&unhex(h)?).ok()?)) }
         _ => None,
@@ -92,6 +93,7 @@ pub fn parse_op(s: &str, spent: &[TxOut]) -> Option<Op> {
 fn with_pv<R>(p: &Pv, spent: &[TxOut], f: impl FnOnce(&Prevouts<TxOut>) -> R) -> R {
     match p {
         Pv::All => f(&Prevouts::All(spent)),
+        Pv::AllN(n) => { let v: Vec<TxOut> = spent.iter().chain(spent.iter()).take(*n).cloned().collect(); f(&Prevouts::All(&v)) }
         Pv::One(j) => f(&Prevouts::One(*j, spent[*j].clone())),
         Pv::OneX(j, o) => f(&Prevouts::One(*j, o.clone())),
     }
@@ -204,6 +206,7 @@ fn rpv(rng: &mut ChaCha20Rng, idx: usize, spent: &[TxOut], tags: &mut Vec<String
         11..=15 if idx < spent.len() => { tags.push("pv:one".into()); Pv::One(idx) }
         16 if !spent.is_empty() => { tags.push("pv:one-other-index".into()); Pv::One(rng.gen_range(0..spent.len())) }
         17 | 18 => { tags.push("pv:one-foreign-output".into()); Pv::OneX(idx, rtxout(rng, Feat { big: false, no_witness: true }, &mut vec![])) }
+        19 if !spent.is_empty() => { tags.push("pv:all-wrong-length".into()); Pv::AllN(pk!(rng, [spent.len() - 1, spent.len() + 1, 0, 2 * spent.len()])) }
         _ => { tags.push("pv:all".into()); Pv::All }
     }
 }
@@ -324,5 +327,25 @@ pub fn gen(rng: &mut ChaCha20Rng, n: usize, thorough: bool) -> Vec<Case> {
     let mut ops = vec![Op::Segwit(0, 1, vec![0x51], Value::Explicit(5))];
     for t in SCHNORR_TYPES { for pv in [Pv::One(1), Pv::All, Pv::One(1)] { ops.push(Op::Key(1, t, pv)); } }
     out.push(mk_case(&tx, &spent, r32(rng), &ops, tags, true));
+    // targeted: a REJECTED query as the very first use of the cache (each kind of rejection), then every taproot type with Prevouts::All
+    // and the other entry points: a failed call must not leave anything behind that a later answer depends on
+    let nin = tx.input.len();
+    let rejected: Vec<(&str, Op)> = vec![
+        ("all-too-short", Op::Key(0, 0, Pv::AllN(nin - 1))), ("all-too-long", Op::Key(0, 1, Pv::AllN(nin + 1))), ("all-empty", Op::Key(1, 2, Pv::AllN(0))),
+        ("all-too-short-acp", Op::Key(0, 0x81, Pv::AllN(nin - 1))), ("all-too-short-scriptpath", Op::ScriptSpend(1, 0, Pv::AllN(nin - 1), r32(rng))),
+        ("index-out-of-range", Op::Key(nin, 0, Pv::All)), ("index-out-of-range-acp", Op::Key(nin + 1, 0x83, Pv::All)),
+        ("single-without-output", Op::Key(nin - 1, 3, Pv::All)), ("one-without-acp", Op::Key(1, 0, Pv::One(1))), ("one-other-index-acp", Op::Key(1, 0x81, Pv::One(0))),
+        ("wrong-annex", Op::Taproot(0, 0, Pv::All, Some(vec![0x51, 1]), None)), ("reserved-type", Op::Taproot(0, 0xff, Pv::All, None, None)),
+        ("legacy-out-of-range", Op::Legacy(nin, 1, vec![0x51])), ("segwit-out-of-range", Op::Segwit(nin, 1, vec![0x51], Value::Explicit(1))),
+    ];
+    for (name, first) in rejected {
+        let tags = vec![format!("targeted:rejected-first:{}", name)];
+        let mut ops = vec![first.clone()];
+        for t in SCHNORR_TYPES { ops.push(Op::Key(0, t, Pv::All)); ops.push(Op::Key(1, t, if t >= 0x81 { Pv::One(1) } else { Pv::All })); }
+        ops.push(first);
+        ops.push(Op::Segwit(0, 1, vec![0x51], Value::Explicit(5))); ops.push(Op::Segwit(1, 0x83, vec![0x52], Value::Explicit(6))); ops.push(Op::Legacy(1, 1, vec![0x51]));
+        ops.push(Op::ScriptSpend(1, 1, Pv::All, r32(rng)));
+        out.push(mk_case(&tx, &spent, r32(rng), &ops, tags, true));
+    }
     out
 }
